@@ -139,7 +139,13 @@ type MultiCase struct {
 	Cfg  engine.Config
 }
 
-func MultiRunner(mk func(tier string) ([]MultiCase, []string)) func(tier string) *Runner {
+type genCase struct {
+	Name string
+	Sc   engine.Scenario
+	Cfg  engine.Config
+}
+
+func multiRunnerGeneric(mk func(tier string) ([]genCase, []string)) func(tier string) *Runner {
 	return func(tier string) *Runner {
 		return &Runner{
 			Run: func(o RunOpts) Output {
@@ -158,7 +164,7 @@ func MultiRunner(mk func(tier string) ([]MultiCase, []string)) func(tier string)
 					if o.Workers > 0 {
 						cfg.Workers = o.Workers
 					}
-					res := engine.Run(Adapter{Spec: c.Spec}, cfg)
+					res := engine.Run(c.Sc, cfg)
 					one := BFSOutput(res, cfg, nil)
 					states += res.States
 					trans += res.Transitions
@@ -209,7 +215,7 @@ func MultiRunner(mk func(tier string) ([]MultiCase, []string)) func(tier string)
 				cases, _ := mk(tier)
 				var vs []engine.Violation
 				for _, c := range cases {
-					a := Adapter{Spec: c.Spec}
+					a := c.Sc
 					func() {
 						defer func() { recover() }()
 						_, steps := a.Replay(a.NewWorker(), seed, ops)
@@ -225,6 +231,31 @@ func MultiRunner(mk func(tier string) ([]MultiCase, []string)) func(tier string)
 			},
 		}
 	}
+}
+
+
+// MultiRunner runs several BFS configurations (hub-instance Specs) of one property and aggregates them.
+func MultiRunner(mk func(tier string) ([]MultiCase, []string)) func(tier string) *Runner {
+	return multiRunnerGeneric(func(tier string) ([]genCase, []string) {
+		cases, as := mk(tier)
+		var out []genCase
+		for _, c := range cases {
+			out = append(out, genCase{c.Name, Adapter{Spec: c.Spec}, c.Cfg})
+		}
+		return out, as
+	})
+}
+
+// MultiRunner0 is MultiRunner for scenarios that implement engine.Scenario themselves.
+func MultiRunner0(mk func(tier string) ([]engine.Scenario, []string, []engine.Config, []string)) func(tier string) *Runner {
+	return multiRunnerGeneric(func(tier string) ([]genCase, []string) {
+		scs, names, cfgs, as := mk(tier)
+		var out []genCase
+		for i := range scs {
+			out = append(out, genCase{names[i], scs[i], cfgs[i]})
+		}
+		return out, as
+	})
 }
 
 var PowerVectors = [][]int64{{10, 10, 10}, {1, 1, 1}, {1, 1}, {34, 33, 33}, {50, 30, 20}, {50, 25, 25}, {66, 34}, {65, 35}, {2, 1, 1, 1}, {10}}
